@@ -1,5 +1,6 @@
 import XzVerif.Gen.ErrFlow
 import XzVerif.Proofs.Writer2F
+import XzVerif.Proofs.XzWF
 import XzVerif.Proofs.HashTable
 import XzVerif.Proofs.BinTree
 /-
@@ -38,8 +39,23 @@ import XzVerif.Proofs.BinTree
   * `C09_writer2_no_fault_no_difference` — a run in which no sink call failed is the fault-free run of C08.
   Before the F18 repair `no_call_panics` is false for the model of the old behaviour, and the real code panicked on the
   history recorded in known_findings.json.
-  Not covered by a theorem: the xz container writer and the classic LZMA writer on failing sinks, and the readers on
-  failing sources (exhaustive fault enumeration only).
+
+  **The xz writer on a failing sink as a theorem.**  `Model/XzWF.lean` is writer.go call by call (NewWriter, Write with
+  its block changes, Close, newBlockWriter / closeBlockWriter, blockWriter.Write/Close/record, writeIndex, footer) on
+  top of `Writer2F`: ONE fault plan numbers all sink calls (stream header, per block: header, the Writer2's chunk
+  writes and end-of-stream byte, padding + check, then index pieces, CRC, footer); the `closed` flags are set before
+  the writes as in Go.  Tied to the real `xz.Writer` over the fault-injecting sink (2 800 runs quick: per-call
+  results, sink bytes, number of sink calls).  Proved for EVERY fault plan, every valid configuration, every call
+  history, both match finder models (`Proofs/XzWF*.lean`, `Writer2Pre.lean`, 1 600 lines):
+  * `C09_xzwriter_no_call_panics` (incl. `record()`'s "block header not written" panic — defect F8 of the pinned tree —
+    which is unreachable because the header length is recorded before the header write);
+  * `C09_xzwriter_failure_surfaces_in_the_same_call`, `C09_xzwriter_failure_never_masked`, `C09_xzwriter_new_fails_on_fault`;
+  * `C09_xzwriter_no_fault_no_difference`: a run without a failing sink call writes exactly the stream of the batch
+    model of C01 (`XzW.run`), every call succeeding;
+  * `C09_xzwriter_success_only_with_valid_stream`: NewWriter and every call of Write* Close returned nil ⇒ the sink
+    decodes (strict rules and Go rules) to exactly the data written.
+  Not covered by a theorem: the classic LZMA writer on failing sinks (bufio / the range encoder's byte writes), and the
+  readers on failing sources (exhaustive fault enumeration only).
 -/
 namespace Props.C09
 
@@ -134,6 +150,67 @@ theorem C09_writer2_no_fault_no_difference {σ : Type} (c : Cfg) (hc : CfgOk c) 
     (W2F.run c M F (W2F.init c m0) calls).2.map (fun r => (r.1.n, r.1.err.isNone, r.2)) =
       (W2.run c M (W2.init c m0) calls).2.map (fun r => (r.1.n, r.1.err.isNone, r.2)) :=
   W2F.run_no_hit c hc M I hI m0 h0 F calls hnc hh
+
+/-! ### the xz writer on a failing sink (Model/XzWF.lean) -/
+
+open W2 W2F in
+theorem C09_xzwriter_no_call_panics {σ : Type} (c : XzW.Cfg) (hc : XzW.CfgOk c) (M : Matcher σ)
+    (I : σ → ByteArray → ByteArray → Prop) (hI : MatcherInv c.w2 M I) (m0 : σ) (h0 : I m0 ByteArray.empty ByteArray.empty)
+    (F : Plan) (s0 : XzWF.St σ) (h : XzWF.new c F m0 = .ok s0) (calls : List XzWF.Call) :
+    ∀ r ∈ (XzWF.run c M F m0 s0 calls).2, r.1.panic = false :=
+  XzWF.no_panic c hc M I hI m0 h0 F s0 h calls
+
+open W2 W2F in
+theorem C09_xzwriter_no_call_panics_hashtable4 (c : XzW.Cfg) (hc : XzW.CfgOk c) (F : Plan)
+    (s0 : XzWF.St (HT.St)) (h : XzWF.new c F (HT.St.new c.w2.dictCap c.w2.bufSize) = .ok s0) (calls : List XzWF.Call) :
+    ∀ r ∈ (XzWF.run c HT.HT4 F (HT.St.new c.w2.dictCap c.w2.bufSize) s0 calls).2, r.1.panic = false :=
+  XzWF.no_panic c hc HT.HT4 (HT.Synced c.w2) (HT.ht4_matcherInv c.w2) _ (HT.synced_new c.w2) F s0 h calls
+
+open W2 W2F in
+theorem C09_xzwriter_no_call_panics_bintree (c : XzW.Cfg) (hc : XzW.CfgOk c) (F : Plan)
+    (s0 : XzWF.St (BT.St)) (h : XzWF.new c F (BT.St.new c.w2.dictCap c.w2.bufSize) = .ok s0) (calls : List XzWF.Call) :
+    ∀ r ∈ (XzWF.run c BT.BT4 F (BT.St.new c.w2.dictCap c.w2.bufSize) s0 calls).2, r.1.panic = false :=
+  XzWF.no_panic c hc BT.BT4 (BT.Synced c.w2) (BT.bt4_matcherInv c.w2) _ (BT.synced_new c.w2) F s0 h calls
+
+open W2 W2F in
+theorem C09_xzwriter_failure_surfaces_in_the_same_call {σ : Type} (c : XzW.Cfg) (M : Matcher σ) (F : Plan) (m0 : σ)
+    (s : XzWF.St σ) (call : XzWF.Call) (h0 : s.f.hit = false) (h1 : (XzWF.step c M F m0 s call).1.f.hit = true) :
+    (XzWF.step c M F m0 s call).2.err ≠ none :=
+  XzWF.step_hit c M F m0 s call h0 h1
+
+open W2 W2F in
+/-- a sink call failing inside NewWriter makes NewWriter fail (contrapositive: success ⇒ no fault so far) -/
+theorem C09_xzwriter_new_fails_on_fault {σ : Type} (c : XzW.Cfg) (F : Plan) (m0 : σ) (s : XzWF.St σ)
+    (h : XzWF.new c F m0 = .ok s) : s.f.hit = false :=
+  XzWF.new_ok_no_hit c F m0 s h
+
+open W2 W2F in
+theorem C09_xzwriter_failure_never_masked {σ : Type} (c : XzW.Cfg) (M : Matcher σ) (F : Plan) (m0 : σ)
+    (s0 : XzWF.St σ) (h : XzWF.new c F m0 = .ok s0) (calls : List XzWF.Call)
+    (hh : (XzWF.run c M F m0 s0 calls).1.f.hit = true) :
+    ∃ r ∈ (XzWF.run c M F m0 s0 calls).2, r.1.err ≠ none :=
+  XzWF.hit_surfaces c M F m0 s0 h calls hh
+
+open W2 W2F in
+theorem C09_xzwriter_no_fault_no_difference {σ : Type} (c : XzW.Cfg) (hc : XzW.CfgOk c) (M : Matcher σ)
+    (I : σ → ByteArray → ByteArray → Prop) (hI : MatcherInv c.w2 M I) (m0 : σ) (h0 : I m0 ByteArray.empty ByteArray.empty)
+    (F : Plan) (s0 : XzWF.St σ) (h : XzWF.new c F m0 = .ok s0) (writes : List ByteArray)
+    (hh : (XzWF.run c M F m0 s0 (writes.map .write ++ [.close])).1.f.hit = false) :
+    (XzWF.run c M F m0 s0 (writes.map .write ++ [.close])).1.f.w.out = XzW.run c M m0 writes ∧
+    XzWF.allOk (XzWF.run c M F m0 s0 (writes.map .write ++ [.close])).2 :=
+  XzWF.run_no_hit c hc M I hI m0 h0 F s0 h writes hh
+
+open W2 W2F in
+theorem C09_xzwriter_success_only_with_valid_stream {σ : Type} (strict : Bool) (c : XzW.Cfg) (hc : XzW.CfgOk c)
+    (M : Matcher σ) (I : σ → ByteArray → ByteArray → Prop) (hI : MatcherInv c.w2 M I) (m0 : σ)
+    (h0 : I m0 ByteArray.empty ByteArray.empty) (F : Plan) (s0 : XzWF.St σ) (h : XzWF.new c F m0 = .ok s0)
+    (writes : List ByteArray) (hsize : (XzW.written writes).size < 2 ^ 40)
+    (hblocks : (XzW.split c.blockSize writes).length < 2 ^ 28)
+    (cfgCap : Nat) (hcap : strict = false → cfgCap ≤ Xz.dictSize (Model.encodeDictCap c.w2.dictCap))
+    (hok : XzWF.allOk (XzWF.run c M F m0 s0 (writes.map .write ++ [.close])).2) :
+    let out := (XzWF.run c M F m0 s0 (writes.map .write ++ [.close])).1.f.w.out
+    (Xz.read strict cfgCap false out).status = .eof ∧ (Xz.read strict cfgCap false out).out = XzW.written writes :=
+  XzWF.all_nil_means_valid_stream strict c hc M I hI m0 h0 F s0 h writes hsize hblocks cfgCap hcap hok
 
 /-- non-vacuity: a fault plan that fails the second sink call once, and one that never fails, are plans; the premise
     `hit = true` of the masking theorem is met by a concrete run (one Write of 1 byte, Close, first sink call fails) -/
